@@ -232,6 +232,7 @@ type Exec struct {
 	tbuf           []transition
 	clockHash      uint64
 	rendezvousOnly bool
+	atomics        map[unsafe.Pointer]*Obj
 }
 
 var cur *Exec
